@@ -8,3 +8,23 @@ package utils
 //@ func Create
 //@   trusted
 //@   modifies "F:accesscontroller.CreateAccessControllerOptions.Access", "F:accesscontroller.CreateAccessControllerOptions.Address", "MD:Str:Slice_Str", "MV:Str:Slice_Str", "MC:Str:Slice_Str"
+
+// Resolve (C03): a controller is handed out only after its Load succeeded — before that it holds the
+// constructor's default write list (the opener's own id), not the list recorded for the database.
+//@ ghost field acLoadOK(Iface) Bool
+//@ extern (berty.tech/go-orbit-db/accesscontroller.Interface).Load as (a).Load(ctx, address) (err)
+//@   ensures (err == nil) == acLoadOK(a)
+//@   modifies acLoadOK(a)
+//@ extern berty.tech/go-orbit-db/accesscontroller.ResolveManifest as ResolveManifest(ctx, ipfs, manifestAddress, params) (m, err)
+//@   ensures err == nil ==> m != nil
+//@   modifies nothing
+//@ noeffect (berty.tech/go-orbit-db/iface.BaseOrbitDB).GetAccessControllerType
+//@ extern param:Resolve.accessControllerConstructor as accessControllerConstructor(ctx, db, params, options) (ac, err)
+//@   ensures err == nil ==> ac != nil && !acLoadOK(ac)
+//@   modifies "G:acLoadOK"
+//@ func Resolve
+//@   props C03
+//@   flag nilcalls
+//@   requires db != nil && params != nil && ref(params) != 0
+//@   ensures result1 == nil ==> result != nil && acLoadOK(result)
+//@   modifies *
